@@ -94,14 +94,10 @@ class SpecArray(object):
     @property
     def dd(self):
         """Direction resolution float."""
-        if self._dd is not None:
-            return self._dd
         if self.dir is not None and len(self.dir) > 1:
             dd = abs(float(self.dir[1] - self.dir[0]))
-            self._dd = min(dd, 360 - dd)
-        else:
-            self._dd = 1.0
-        return self._dd
+            return min(dd, 360 - dd)
+        return 1.0
 
     @property
     def partition(self):
